@@ -29,6 +29,11 @@ type Opts struct {
 	// AlphaBody restricts body bytes to letters (no CR/LF/digits inside a
 	// body), so that every CR/LF in the stream is a framing byte.
 	AlphaBody bool
+	// Damage lets the generator produce structurally ill-formed messages
+	// (feature names starting with "damage:"): the message is then not part
+	// of any domain of valid inputs, only "same outcome for every
+	// segmentation" can be asked of it.
+	Damage bool
 }
 
 // Pos is the position of one framing CRLF (offset of its CR in the stream).
@@ -316,6 +321,12 @@ func (g *gen) target() string {
 		}
 	}
 	t := sb.String()
+	if g.p(6) {
+		// an empty first segment: still a path for a request target, a
+		// network-path reference under the generic URI rules
+		g.feat("target-empty-first-segment")
+		t = "/" + t
+	}
 	// a stray '%' not followed by two hex digits would make the target
 	// ill-formed for url.ParseRequestURI on both sides; keep targets valid
 	t = fixPercent(t)
@@ -558,7 +569,13 @@ func (g *gen) message() {
 		bodyLen = g.bodyLen()
 		m.HasCL = true
 		g.feat("content-length")
-		hs = append(hs, hdr{"Content-Length", fmt.Sprint(bodyLen)})
+		cl := fmt.Sprint(bodyLen)
+		if g.p(8) {
+			// 1*DIGIT, always decimal: leading zeros are legal
+			g.feat("content-length-leading-zero")
+			cl = strings.Repeat("0", 1+g.rng.Intn(3)) + cl
+		}
+		hs = append(hs, hdr{"Content-Length", cl})
 	case frChunked:
 		bodyLen = g.bodyLen()
 		m.Chunked = true
@@ -641,6 +658,11 @@ func (g *gen) message() {
 		}
 		g.s(g.chunkExt())
 		g.crlf("last-chunk-line")
+		if o.Damage && len(trailers) > 0 && g.p(15) {
+			// announced, never sent: the message ends with the plain last chunk
+			g.feat("damage:announced-trailer-omitted")
+			trailers = nil
+		}
 		for _, t := range trailers {
 			if o.Strict {
 				g.s(t.name)
